@@ -53,3 +53,38 @@ Definition permits (m o : outcome) : bool := match o with NoFire => true | _ => 
 Definition agrees (c : case) : bool := let '(d, u, i, o) := c in permits (sa_check d u i) o.
 Fixpoint disagreeing (i : nat) (l : list case) : list nat :=
   match l with [] => [] | c :: t => (if agrees c then [] else [i]) ++ disagreeing (S i) t end.
+
+(* ---------------------------------------------------------------- ScatterAllDynamic (_redundant_scatter_nd.py)
+   pattern: ScatterND(transposed_data, Unsqueeze(Range(0, Gather(Shape(data), axis), 1), [-1]), updates, reduction="none")
+   check:   axis is a one-element integer constant; data.shape and transposed_data.shape are known;
+            same_dim(data.shape[axis], transposed_data.shape[0])   (Python indexing: negative axis counts from the back,
+            an axis outside [-rank, rank) raises IndexError, as does [0] on a rank-0 shape) *)
+Definition py_index {A} (l : list A) (i : Z) : option A :=
+  let n := Z.of_nat (length l) in
+  if (0 <=? i)%Z && (i <? n)%Z then nth_error l (Z.to_nat i)
+  else if (- n <=? i)%Z && (i <? 0)%Z then nth_error l (Z.to_nat (i + n))
+  else None.
+Definition da_check (dshape tshape : option (list dim)) (axis : option Z) : outcome :=
+  match axis, dshape with
+  | Some a, Some ds =>
+      match py_index ds a with
+      | None => Raises
+      | Some d =>
+          match tshape with
+          | None => NoFire
+          | Some [] => Raises
+          | Some (t0 :: _) => if dim_eqb d t0 then Fire else NoFire
+          end
+      end
+  | _, _ => NoFire
+  end.
+(* what a declared dim says about a runtime extent under a binding of the symbol names *)
+Definition dim_denotes (val : nat -> Z) (d : dim) (x : Z) : Prop :=
+  match d with St v => x = v | Sy k => x = val k | Un => True end.
+(* Range(0, n, 1) as row indices (Unsqueeze(.., [-1]) makes each a one-element row: the [[0],..,[n-1]] of ScatterAllStatic) *)
+Definition full_range (n : Z) : list nat := seq 0 (Z.to_nat n).
+
+Definition dcase := (option (list dim) * option (list dim) * option Z * outcome)%type.
+Definition dagrees (c : dcase) : bool := let '(d, t, a, o) := c in permits (da_check d t a) o.
+Fixpoint ddisagreeing (i : nat) (l : list dcase) : list nat :=
+  match l with [] => [] | c :: t => (if dagrees c then [] else [i]) ++ ddisagreeing (S i) t end.
